@@ -3,12 +3,15 @@
   `<component> <args…>`; the C++ harness (harness/) answers the same lines by calling the real code.
 -/
 import PotasscoVerif.Drv.BufferedStream
+import PotasscoVerif.Drv.RuleBuilder
 open PotasscoVerif.Drv
 
 def dispatch (line : String) : String :=
   match words line with
   | "bs" :: args => runBS args
   | "as" :: args => runAS args
+  | "rb" :: args => runRB args
+  | "rs" :: args => runRS args
   | _ => "bad-component"
 
 partial def loop (h : IO.FS.Stream) (out : IO.FS.Stream) : IO Unit := do
